@@ -11,7 +11,7 @@ for f in sorted(glob.glob("/tmp/seedrun/*.json")):
     name = os.path.basename(f)[:-5]
     if name == "summary":
         continue
-    m0 = re.match(r"(C\d\d)-(\d)-patch$", name) or re.match(r"(C\d\d)-patch(\d)$", name)
+    m0 = re.match(r"(C\d\d)-(\d+)-patch$", name) or re.match(r"(C\d\d)-patch(\d+)$", name)
     pid, k = m0.group(1), m0.group(2)
     own = r["checks"].get(pid, {})
     rp = own.get("replay") or {}
